@@ -238,9 +238,9 @@ func (v *VC) genAppend(i *ssa.Call, g string, heap *Heap) {
 		v.features["tyof"] = true
 		v.assume(g, fmt.Sprintf("(forall ((k Int)) (! (= (tyof (selem %s k)) %d) :pattern ((selem %s k))))", res, id, res))
 	}
-	if _, isStr := i.Call.Args[1].Type().Underlying().(*types.Basic); isStr {
-		v.unsupp("append(bytes, string...)")
-		return
+	_, bIsStr := i.Call.Args[1].Type().Underlying().(*types.Basic)
+	if bIsStr {
+		v.useStrAt()
 	}
 	v.leafHeaps(et, func(key, srt string, paths []func(string) string) {
 		old := v.heapGet(heap, key, srt)
@@ -252,6 +252,11 @@ func (v *VC) genAppend(i *ssa.Call, g string, heap *Heap) {
 			// old elements keep their value in the result
 			v.assume(g, fmt.Sprintf("(forall ((k Int)) (! (=> (and (<= 0 k) (< k (s-len %s))) (= (select %s %s) (select %s %s))) :pattern ((select %s %s))))", a, nm, el(res, "k"), old, el(a, "k"), nm, el(res, "k")))
 			// appended elements
+			if bIsStr {
+				// append([]byte, string...): the appended bytes are the bytes of the string
+				v.assume(g, fmt.Sprintf("(forall ((k Int)) (! (=> (and (<= (s-len %s) k) (< k %s)) (= (select %s %s) (str.at %s (- k (s-len %s))))) :pattern ((select %s %s))))", a, newLen, nm, el(res, "k"), b, a, nm, el(res, "k")))
+				continue
+			}
 			v.assume(g, fmt.Sprintf("(forall ((k Int)) (! (=> (and (<= (s-len %s) k) (< k %s)) (= (select %s %s) (select %s %s))) :pattern ((select %s %s))))", a, newLen, nm, el(res, "k"), old, el(b, fmt.Sprintf("(- k (s-len %s))", a)), nm, el(res, "k")))
 			// explicit instances for append(s, x1..xn) (variadic literal of known small length)
 			for j := 0; j < varargLen(i.Call.Args[1]); j++ {
@@ -427,6 +432,15 @@ func (v *VC) doCall(c *ssa.CallCommon, g string, heap *Heap, pos token.Pos) []st
 				return v.modularSig(gk, sig, ct, append([]string{v.val(c.Value)}, args...), c.Value.Type(), g, heap, pos)
 			}
 		}
+		if fk := fieldFuncVarKey(c.Value); fk != "" {
+			if ct, ok := v.P.db.Contracts[fk]; ok {
+				ct.Used = true
+				v.calls[fk] = true
+				v.note("assumed contract of the function stored in struct field %s", fk)
+				v.safety("nil-func-call", g, fmt.Sprintf("(not (= %s nilp))", v.val(c.Value)), pos)
+				return v.modularSig(fk, sig, ct, append([]string{v.val(c.Value)}, args...), c.Value.Type(), g, heap, pos)
+			}
+		}
 		if prm, ok := c.Value.(*ssa.Parameter); ok && v.contract != nil && v.contract.Callbacks[prm.Name()] && !v.inline {
 			v.note("callback parameter %s of %s is assumed not to modify memory this function observes", prm.Name(), shortKey(fnKey(v.fn)))
 			v.safety("nil-func-call", g, fmt.Sprintf("(not (= %s nilp))", v.val(c.Value)), pos)
@@ -535,6 +549,13 @@ func (v *VC) framedHavoc(name string, ct *Contract, pre *SpecEnv, heap *Heap) {
 	var mods []modTerm
 	var desc []string
 	for _, c := range ct.Mods {
+		if len(c.Fields) > 0 {
+			for _, f := range c.Fields {
+				mods = append(mods, v.fieldMod(pre.fn, f))
+			}
+			desc = append(desc, fmt.Sprintf("{fields %v}", c.Fields))
+			continue
+		}
 		m := modTerm{object: rootOfExpr(c.Object), younger: rootOfExpr(c.Younger)}
 		if len(c.Kinds) > 0 {
 			m.kinds = map[string]bool{}
@@ -645,6 +666,9 @@ func (v *VC) modularCall(callee *ssa.Function, ct *Contract, args []string, bind
 // assumeCalleeEnsures: a postcondition of a callee that talks about the callee's own locals cannot
 // be stated at the call site; it is simply not assumed there (fewer assumptions, still sound).
 func (v *VC) assumeCalleeEnsures(g string, e Clause, post *SpecEnv) {
+	if e.Assumed {
+		v.note("posited (unchecked) postcondition [%s]: %s", e.Label, e.Src)
+	}
 	t, err := v.evalClause(e, post)
 	if err != nil {
 		if strings.Contains(err.Error(), "unknown identifier") {
@@ -765,4 +789,62 @@ func (v *VC) assumeEnsuresSig(name string, sig *types.Signature, ct *Contract, a
 	for _, e := range ct.Ensures {
 		v.assume(g, v.evalSpec(e, env))
 	}
+}
+
+// fieldMod resolves "T.f" (T looked up in the scope of fn's package) to the frame condition
+// "p is the cell of field f of some struct of type T".
+func (v *VC) fieldMod(fn *ssa.Function, spec string) modTerm {
+	i := strings.LastIndex(spec, ".")
+	if i <= 0 {
+		panic(specErr{"bad field in modifies fields: " + spec})
+	}
+	gt := v.lookupGoType(fn, spec[:i])
+	if gt == nil {
+		panic(specErr{"modifies fields: unknown type " + spec[:i]})
+	}
+	st, ok := gt.Underlying().(*types.Struct)
+	if !ok {
+		panic(specErr{"modifies fields: not a struct: " + spec[:i]})
+	}
+	for k := 0; k < st.NumFields(); k++ {
+		if st.Field(k).Name() != spec[i+1:] {
+			continue
+		}
+		ft := st.Field(k).Type()
+		switch ft.Underlying().(type) {
+		case *types.Struct, *types.Array:
+			panic(specErr{"modifies fields: field of struct/array type not supported: " + spec})
+		}
+		key, srt := v.heapKey(ft)
+		v.registerKey(key, srt)
+		v.features["tyof"] = true
+		return modTerm{fieldKey: key, fieldCond: fmt.Sprintf("(and ((_ is fld) p) (= (fld-idx p) %d) (= (tyof (fld-base p)) %d))", k, v.pointeeID(gt))}
+	}
+	panic(specErr{"modifies fields: no field " + spec})
+}
+
+// fieldFuncVarKey: "field:<pkgpath>.<Type>.<field>" when x is the value loaded from a func-typed
+// field of a named struct type.
+func fieldFuncVarKey(x ssa.Value) string {
+	u, ok := x.(*ssa.UnOp)
+	if !ok || u.Op != token.MUL {
+		return ""
+	}
+	fa, ok := u.X.(*ssa.FieldAddr)
+	if !ok {
+		return ""
+	}
+	pt, ok := fa.X.Type().Underlying().(*types.Pointer)
+	if !ok {
+		return ""
+	}
+	nt, ok := pt.Elem().(*types.Named)
+	if !ok || nt.Obj().Pkg() == nil {
+		return ""
+	}
+	st, ok := nt.Underlying().(*types.Struct)
+	if !ok {
+		return ""
+	}
+	return "field:" + nt.Obj().Pkg().Path() + "." + nt.Obj().Name() + "." + st.Field(fa.Field).Name()
 }
